@@ -102,4 +102,43 @@ StrOK(r) ==
     /\ \A i \in 0..(r.n - 1) :
          LET W == {k \in 1..Len(r.ops) : PyIndex(r.n, r.ops[k].i) = i}
          IN  r.final[i + 1] = (IF W = {} THEN "" ELSE r.ops[CHOOSE k \in W : \A j \in W : j <= k].v)
+
+\* FixedVArray: a Python list of lists.  Row i of the array built from sizes s is  [V2(i, j) : j < s[i]].
+VRow(i, m) == [j \in 1..m |-> V2(i, j - 1)]
+VFull(sizes) == [i \in 1..Len(sizes) |-> VRow(i - 1, sizes[i])]
+VArrOK(r) ==
+    LET n == Len(r.sizes)  old == VFull(r.sizes) IN
+    CASE r.op = "size" -> r.len = n /\ r.out = r.sizes /\ r.full = old
+      [] r.op = "get" ->
+           IF Bad(n, r.key, r.isint) THEN r.exc = 1
+           ELSE LET sel == Sel(n, r.key, r.isint) IN r.exc = 0 /\ r.rows = [k \in 1..Len(sel) |-> old[sel[k] + 1]]
+      [] r.op = "getmask" ->
+           LET picked == SelectSeq([i \in 1..n |-> i], LAMBDA i : r.mask[i] # 0) IN
+           r.exc = 0 /\ r.rows = [k \in 1..Len(picked) |-> old[picked[k]]]
+      [] r.op = "setrow" ->          \* every selected row := data (100, 101, ...); lengths must agree
+           IF Bad(n, r.key, r.isint) THEN r.exc = 1 /\ r.full = old
+           ELSE LET sel == Sel(n, r.key, r.isint)
+                    data == [j \in 1..r.m |-> 99 + j]
+                    allfit == \A k \in 1..Len(sel) : r.sizes[sel[k] + 1] = r.m
+                IN  IF allfit
+                    THEN r.exc = 0 /\ r.full = [i \in 1..n |-> IF InSeq(i - 1, sel) THEN data ELSE old[i]]
+                    ELSE \* raises; rows written before the mismatch was met may already hold the data, nothing else changes
+                         /\ r.exc = 1 /\ Len(r.full) = n
+                         /\ \A i \in 1..n : r.full[i] = old[i] \/ (InSeq(i - 1, sel) /\ r.sizes[i] = r.m /\ r.full[i] = data)
+      [] r.op = "setvec" ->          \* selected rows := rows of another variable array (200 + 10 k + j), one for one
+           IF Bad(n, r.key, r.isint) THEN r.exc = 1 /\ r.full = old
+           ELSE LET sel == Sel(n, r.key, r.isint)
+                    drow(k) == [j \in 1..r.ds[k] |-> 200 + 10 * (k - 1) + (j - 1)]
+                    posOf(i) == CHOOSE k \in 1..Len(sel) : sel[k] = i - 1
+                IN  IF Len(sel) = Len(r.ds)
+                    THEN r.exc = 0 /\ r.full = [i \in 1..n |-> IF InSeq(i - 1, sel) THEN drow(posOf(i)) ELSE old[i]]
+                    ELSE r.exc = 1 /\ r.full = old
+      [] r.op = "view" ->            \* a row view aliases the array and outlives it
+           IF PyIndex(n, r.i) < 0 THEN r.exc = 1
+           ELSE LET i == PyIndex(n, r.i) + 1  m == r.sizes[i] IN
+                /\ r.exc = 0
+                /\ r.row = [j \in 1..m |-> IF j = 1 THEN 55 ELSE old[i][j]]
+                /\ r.alias = (IF m > 0 THEN 1 ELSE 0)
+      [] r.op = "ro" -> r.raised = r.tried /\ r.writable = 0 /\ r.full = old
+      [] OTHER -> FALSE
 =============================================================================
